@@ -54,6 +54,28 @@ CLAIMED.update({
          T4 + " Known region R10 (parked member stall) excluded from the completeness clause; R11/R14 excluded by construction.", "§5 C17"),
 })
 
+E6 = "E6 clientstate"
+CLAIMED.update({
+ "C02": (E6, "model-based stateful property testing (proptest op sequences on MqttState v4/v5 against a reference model of accepted publishes; set equality with clone().clean() after every step)",
+         "State-machine layer: sequences (<=200) of user requests, broker acks chosen among the currently unacknowledged ids (out of order, duplicate, unsolicited, above the limit), inbound flows and failures with generated session_present are run against both MqttState implementations; after every step the set revealed by clean() on a clone plus the parked collision must equal the model's not-finally-acknowledged publishes and pending releases (nothing lost, resurrected or altered), and a resumed failure puts all of them on the wire again. The event-loop layer (crash points in bytes, channel backlog; E7) is being added.",
+         "Trusts the reference model in harness/src/clientstate/interp.rs. User requests are fed only when the event loop would feed them (window not full, no collision).", "§5 C02"),
+ "C07": (E6, "model-based stateful property testing (proptest) of MqttState v4/v5: wire-history invariants on packet ids, window and collision state",
+         "Over the packets the state machine returns for the wire: ids non-zero and <= limit (v5: <= min(limit, receive maximum)), no publish emitted with an id the model holds as unacknowledged (QoS 2 until PUBCOMP), unacknowledged count <= limit, inflight() equals the model count after every step, a pending collision always names an id held by an unacknowledged publish and its final ack releases the parked publish. Limits 1..=8 crossed with random sequences plus 100 and 65535. The event-loop gate (E7) is being added.",
+         "Known finding K7 (v5 negative reason codes) excluded by construction and probed.", "§5 C07"),
+ "C10": (E6, "model-based stateful property testing (proptest) of MqttState v4/v5 inbound handling: reply rules and write<=>announce",
+         "Arbitrary broker packet sequences (every type; ids valid, unsolicited, repeated, above the limit, 0) interleaved with user requests, manual_acks on/off: exactly one Incoming event per packet before any Outgoing it causes; QoS 1 -> PUBACK(id), QoS 2 -> PUBREC(id), PUBREL of a recorded id -> PUBCOMP(id), none when manual_acks; unsolicited acks are errors, never panics, and bookkeeping stays equal to the model; a packet is returned for writing iff exactly one matching Outgoing event was appended. The wire/batch layer (E7) is being added.",
+         "Clauses the statement leaves open (PUBREL of unknown id, PUBCOMP under manual_acks, unsolicited SUBACK) are not asserted.", "§5 C10"),
+ "C11": (E6, "exhaustive enumeration of short publish/ack sequences + property-based testing (proptest) of MqttState v4 clean() ordering",
+         "All sequences over {publish QoS 1, ack oldest} up to length 18 (22 thorough) for limits 1..=8 and random longer ones with several id wrap-arounds: clean() at every prefix returns the unacknowledged publishes in original send order. The wire-level clauses (retransmit first, no session => start clean; E7) are being added.",
+         "Order is asserted only for histories acknowledged in order (as the statement says). Known finding K9 excluded and probed.", "§5 C11"),
+ "C03": (E4, MB + "; panic / slab-alignment / liveness-probe oracles over the widest event alphabet)",
+         "Histories over every op of the simulator plus malformed, unsolicited, out-of-place packets, arbitrary Unicode and raw-byte topics/filters, forged and stale router events for live, never-registered and removed ids, ticks, shared groups, persistent sessions, takeovers: no router turn may panic, the five per-connection slabs stay aligned, the router reaches quiescence within a turn bound, and afterwards a fresh subscriber/publisher pair is served. Exploration only.",
+         "Router configurations are restricted to those CommitLog::new accepts (operator input). Debug assertions off, overflow checks on.", "§5 C03"),
+ "C14": (E4, MB + "; witness pair asserted, adversaries followed)",
+         "A witness publisher/subscriber pair shares topics with 1-3 adversaries that draw from the C03 alphabet: the C01/C06/C09 clauses hold exactly for the witnesses at every drain and idle point and their connections stay registered after every router turn; adversaries' valid publishes are part of the model. Exploration only.",
+         T4 + " Known finding R5 (recycled connection ids) kept out of the main campaign by construction and probed.", "§5 C14"),
+})
+
 NOT_YET = "check not built yet in this revision of /verif (under construction; see DESIGN.md §5 for the planned generator and oracle)"
 
 def main():
@@ -87,7 +109,8 @@ def main():
             {"name": "E2 topic", "path": "harness/src/topic.rs", "serves_properties": ["C12"], "kind_free_text": "reference matcher + exhaustive enumerator + proptest"},
             {"name": "E3 commitlog", "path": "harness/src/commitlog.rs", "serves_properties": ["C13"], "kind_free_text": "append-history model + op interpreter + proptest + short-sequence enumerator"},
             {"name": "E1 codec", "path": "harness/src/codec/", "serves_properties": ["C04", "C05"], "kind_free_text": "neutral packet model, generators, 4 codec adapters, reference framer/encoder/decoder, chunked stream drivers"},
-            {"name": "E4 brokersim", "path": "harness/src/brokersim/", "serves_properties": ["C01", "C06", "C08", "C09", "C15", "C16", "C17"], "kind_free_text": "deterministic single-threaded driver of the real Router (hooks H1/H2/H4), simulated clients, reference broker model, proptest histories"},
+            {"name": "E6 clientstate", "path": "harness/src/clientstate/", "serves_properties": ["C02", "C07", "C10", "C11"], "kind_free_text": "drivers for rumqttc MqttState v4/v5, reference model of accepted publishes, op interpreter"},
+            {"name": "E4 brokersim", "path": "harness/src/brokersim/", "serves_properties": ["C01", "C03", "C06", "C08", "C09", "C14", "C15", "C16", "C17"], "kind_free_text": "deterministic single-threaded driver of the real Router (hooks H1/H2/H4), simulated clients, reference broker model, proptest histories"},
         ],
         "checks": checks,
         "notes": "All checks are `./check <id>`: it rebuilds /verif/harness (path deps on /repo) and runs target/verif/vcheck. exit 0 held / 1 VIOLATION / 2 inconclusive. Known findings: KNOWN_FINDINGS.txt.",
